@@ -30,8 +30,13 @@ def groupBlocksAux : List (CodeBlockKind × Nat) → List (List Nat) → List (L
 def groupBlocks (blocks : List CodeBlockKind) : List (List Nat) := groupBlocksAux blocks.zipIdx []
 
 /-- `get_line_number_corrected_source`: newlines so that the block's lines keep their document line numbers -/
+def normaliseCrLf : Str → Str
+  | '\r' :: '\n' :: rest => '\n' :: normaliseCrLf rest
+  | c :: rest => c :: normaliseCrLf rest
+  | [] => []
+
 def paddedSource (markdown : Str) (pos : Nat) (fenced : Bool) (source : Str) : Str :=
-  List.replicate ((offsetToLineCol markdown pos).1 - 1 + (if fenced then 1 else 0)) '\n' ++ source
+  List.replicate ((offsetToLineCol (normaliseCrLf markdown) pos).1 - 1 + (if fenced then 1 else 0)) '\n' ++ source
 
 -- ---------------------------------------------------------------- title and servings
 /-- match a word case-insensitively (regex `(?i)` on ASCII letters) at the start of `s` -/
@@ -103,9 +108,20 @@ inductive TitleInfo where
   | scalable (title : Str) (servings : Nat) (titleHtml : Str) (preposition : Str)
 deriving Repr, Inhabited
 
-/-- `render_heading`'s decision on the rendered heading text -/
-def headingInfo (first : Bool) (level : Nat) (text : Str) : TitleInfo :=
-  if first && level == 1 && !text.contains '<' && !text.contains '%' then
+def isPrefixOfStr : Str → Str → Bool
+  | [], _ => true
+  | _, [] => false
+  | a :: as, b :: bs => a == b && isPrefixOfStr as bs
+
+/-- `pat in s` -/
+def isInfixOfStr (pat : Str) : Str → Bool
+  | [] => pat.isEmpty
+  | s@(_ :: rest) => isPrefixOfStr pat s || isInfixOfStr pat rest
+
+/-- `render_heading`'s decision on the rendered heading text; `phs` are the placeholders of the scaled value
+    expressions rendered so far -/
+def headingInfo (first : Bool) (level : Nat) (text : Str) (phs : List Str) : TitleInfo :=
+  if first && level == 1 && !text.contains '<' && !phs.any (isInfixOfStr · text) then
     match searchServings text with
     | none => .unscalable (unescapeEntities (stripStr text))
     | some (before, space, prep, ds) =>
@@ -113,10 +129,6 @@ def headingInfo (first : Bool) (level : Nat) (text : Str) : TitleInfo :=
   else .none
 
 -- ---------------------------------------------------------------- render
-def isPrefixOfStr : Str → Str → Bool
-  | [], _ => true
-  | _, [] => false
-  | a :: as, b :: bs => a == b && isPrefixOfStr as bs
 
 /-- `s.replace(pat, rep)` for a non-empty `pat`: leftmost, non-overlapping -/
 def replaceAllAux (pat rep : Str) : Nat → Str → Str
